@@ -330,6 +330,20 @@ func writeTL2(obj items.Obj) (w []byte, ok bool) {
 	return obj.(items.TL2).WriteTL2(nil, &basictl.TL2WriteContext{}), true
 }
 
+// a float field holding -0.0 is "not != 0" for the generated JSON writer, is omitted and reads back as +0.0:
+// equal as a float value, different as bytes (0x80 in the top byte of an aligned word becomes 0x00)
+func onlyNegZeroLost(want, got []byte) bool {
+	if len(want) != len(got) {
+		return false
+	}
+	for i := range want {
+		if want[i] != got[i] && !(i%4 == 3 && want[i] == 0x80 && got[i] == 0x00) {
+			return false
+		}
+	}
+	return true
+}
+
 func jsonUsable(j string) bool {
 	return !strings.Contains(j, `"NaN"`) && !reKeyBase64.MatchString(j) && !reKeyEscaped.MatchString(j)
 }
@@ -678,6 +692,13 @@ func main() {
 			} else if jb, okb := jsonOf(rb.obj); jok && (!okb || jb != j1) {
 				o.Fail("bytes_string_variants_equal_json", line, text)
 			}
+			if _, is := rb.obj.(items.TL2); rb.ok && is && e.it.HasTL2 && r2.ok {
+				ws, oks := writeTL2(r2.obj)
+				wb, okb := writeTL2(rb.obj)
+				if !oks || !okb || !bytes.Equal(ws, wb) {
+					o.Fail("bytes_string_variants_equal_tl2", line, text)
+				}
+			}
 			o.Hist["oracle:bytes_variant"]++
 		}
 		// boxed tag is checked
@@ -716,7 +737,7 @@ func main() {
 				}
 				if err := obj3.ReadJSONGeneral(&basictl.JSONReadContext{}, &basictl.JsonLexer{Data: []byte(j1)}); err != nil {
 					o.Fail(oracle, line, text+" json="+j1+" err="+err.Error())
-				} else if !bytes.Equal(write(obj3, boxed), b1) {
+				} else if b3 := write(obj3, boxed); !bytes.Equal(b3, b1) && !onlyNegZeroLost(b1, b3) {
 					j3, _ := jsonOf(obj3)
 					o.Fail(oracle, line, text+" json="+j1+" reread="+j3)
 				}
@@ -726,54 +747,59 @@ func main() {
 		// TL2 correspondence: what Go wrote for this value (intact or damaged) is read by ReadTL2 and by the model
 		if _, is := obj1.(items.TL2); is && e.it.HasTL2 {
 			if w2, ok := writeTL2(obj1); ok && len(w2) > 0 && len(w2) < 600 {
-				in2 := append([]byte(nil), w2...)
-				k2 := "intact"
-				switch x := rng.Intn(100); {
-				case x < 40:
-				case x < 50:
-					k2 = "junk"
-					in2 = append(in2, le32(rng.U32())[:1+rng.Intn(4)]...)
-				case x < 65:
-					k2 = "truncated"
-					in2 = in2[:rng.Intn(len(in2))]
-				case x < 85:
-					k2 = "flip"
-					in2[rng.Intn(len(in2))] ^= byte(1 << rng.Intn(8))
-				case x < 95:
-					k2 = "byte"
-					in2[rng.Intn(len(in2))] = byte(rng.Pick(0, 1, 2, 3, 127, 128, 253, 254, 255, int64(len(in2)), int64(len(in2)-1)))
-				default:
-					k2 = "insert"
-					p := rng.Intn(len(in2) + 1)
-					in2 = append(in2[:p:p], append([]byte{byte(rng.Pick(0, 1, 2, 255, int64(rng.U32()&0xff)))}, in2[p:]...)...)
-				}
-				o2 := e.it.Create()
-				obs2, acc2 := "None", "rejected"
-				var rest2 []byte
-				var err2 error
-				pan := func() (p bool) {
-					defer func() {
-						if recover() != nil {
-							p = true
-						}
-					}()
-					rest2, err2 = o2.(items.TL2).ReadTL2(append([]byte(nil), in2...), &basictl.TL2ReadContext{})
-					return false
-				}()
-				text2 := fmt.Sprintf("tl2 %s kind=%s hex=%s", e.it.Key(), k2, hex.EncodeToString(in2))
-				if pan {
-					o.Fail("tl2_no_panic", o.N, text2)
-				} else {
-					if err2 == nil {
-						if rw, ok := writeTL2(o2); ok {
-							obs2, acc2 = fmt.Sprintf("(Some (%d, %s))", len(rest2), vu.Bytes(rw)), "accepted"
-						} else {
-							o.Fail("tl2_no_panic", o.N, text2+" (write after read)")
-						}
+				bare := write(obj1, false)
+				o.Case(fmt.Sprintf("cross %s tl1=%s tl2=%s", e.it.Key(), hex.EncodeToString(bare), hex.EncodeToString(w2)),
+					fmt.Sprintf("CCross %d%%nat %s %s", e.tid, vu.Bytes(bare), vu.Bytes(w2)), len(bare) > 8, "tl2:cross_tl1_tl2")
+				for rep := 0; rep < 5; rep++ {
+					in2 := append([]byte(nil), w2...)
+					k2 := "intact"
+					switch x := rng.Intn(100); {
+					case x < 40:
+					case x < 50:
+						k2 = "junk"
+						in2 = append(in2, le32(rng.U32())[:1+rng.Intn(4)]...)
+					case x < 65:
+						k2 = "truncated"
+						in2 = in2[:rng.Intn(len(in2))]
+					case x < 85:
+						k2 = "flip"
+						in2[rng.Intn(len(in2))] ^= byte(1 << rng.Intn(8))
+					case x < 95:
+						k2 = "byte"
+						in2[rng.Intn(len(in2))] = byte(rng.Pick(0, 1, 2, 3, 127, 128, 253, 254, 255, int64(len(in2)), int64(len(in2)-1)))
+					default:
+						k2 = "insert"
+						p := rng.Intn(len(in2) + 1)
+						in2 = append(in2[:p:p], append([]byte{byte(rng.Pick(0, 1, 2, 255, int64(rng.U32()&0xff)))}, in2[p:]...)...)
 					}
-					l2 := o.Case(text2, fmt.Sprintf("CRead2 %d%%nat %s %s", e.tid, vu.Bytes(in2), obs2), err2 == nil && len(in2) > 4, "tl2:"+k2, "tl2:"+acc2)
-					if k2 == "intact" && (err2 != nil || len(rest2) != 0) {
-						o.Fail("tl2_roundtrip", l2, text2)
+					o2 := e.it.Create()
+					obs2, acc2 := "None", "rejected"
+					var rest2 []byte
+					var err2 error
+					pan := func() (p bool) {
+						defer func() {
+							if recover() != nil {
+								p = true
+							}
+						}()
+						rest2, err2 = o2.(items.TL2).ReadTL2(append([]byte(nil), in2...), &basictl.TL2ReadContext{})
+						return false
+					}()
+					text2 := fmt.Sprintf("tl2 %s kind=%s hex=%s", e.it.Key(), k2, hex.EncodeToString(in2))
+					if pan {
+						o.Fail("tl2_no_panic", o.N, text2)
+					} else {
+						if err2 == nil {
+							if rw, ok := writeTL2(o2); ok {
+								obs2, acc2 = fmt.Sprintf("(Some (%d, %s))", len(rest2), vu.Bytes(rw)), "accepted"
+							} else {
+								o.Fail("tl2_no_panic", o.N, text2+" (write after read)")
+							}
+						}
+						l2 := o.Case(text2, fmt.Sprintf("CRead2 %d%%nat %s %s", e.tid, vu.Bytes(in2), obs2), err2 == nil && len(in2) > 4, "tl2:"+k2, "tl2:"+acc2)
+						if k2 == "intact" && (err2 != nil || len(rest2) != 0) {
+							o.Fail("tl2_roundtrip", l2, text2)
+						}
 					}
 				}
 			} else if ok && len(w2) == 0 {
